@@ -142,6 +142,14 @@ func (c *updater) splitDualCIDR(cidrlist *ConfigValue) (allow, deny []string) {
 	return allow, deny
 }
 
+// UpdateDynamicConfig applies the global keys read by the cache and by the
+// converters while resources are parsed, like the cross namespace permissions.
+// They need to be in place before any converter starts, gateway api included.
+func UpdateDynamicConfig(options *convtypes.ConverterOptions, mapper *Mapper) {
+	c := &updater{options: options, logger: options.Logger}
+	c.buildGlobalDynamic(&globalData{mapper: mapper})
+}
+
 func (c *updater) UpdateGlobalConfig(haproxyConfig haproxy.Config, mapper *Mapper) {
 	d := &globalData{
 		acmeData: haproxyConfig.AcmeData(),
@@ -176,7 +184,6 @@ func (c *updater) UpdateGlobalConfig(haproxyConfig haproxy.Config, mapper *Mappe
 	c.buildGlobalCustomConfig(d)
 	c.buildGlobalCustomResponses(d)
 	c.buildGlobalDNS(d)
-	c.buildGlobalDynamic(d)
 	c.buildGlobalForwardFor(d)
 	c.buildGlobalHTTPStoHTTP(d)
 	c.buildGlobalModSecurity(d)
